@@ -13,6 +13,9 @@ from .explorer import HarnessError
 
 _uid = itertools.count()
 _CODE = {}
+# construction path of function / gate / interrupt nodes: "ctor" = FunctionNode / RouteNode / IfElseNode / InterruptNode called
+# directly; "deco" = through the public decorators @node / @route / @ifelse / @interrupt (which take the node name from the function)
+VIA = "ctor"
 
 
 def canon(v):
@@ -448,7 +451,9 @@ def build_node(spec, h, funcs=None):
             if fn is None:
                 fn = _PARTIALS[pk] = functools.partial(_gen_func(spec, _CurrentH(), spec.get("fname", nid), shared=fkey is not None), canon(spec["partial"]))
         else:
-            fn = _gen_func(spec, h, spec.get("fname", nid), shared=fkey is not None)
+            deco = VIA == "deco" and not spec.get("no_deco") and str(name).isidentifier()
+            fn = _gen_func(spec, h, name if deco else spec.get("fname", nid), shared=fkey is not None)
+        deco = VIA == "deco" and "partial" not in spec and not spec.get("no_deco") and str(name).isidentifier()
         common = {}
         if spec.get("emit"):
             common["emit"] = tuple(spec["emit"])
@@ -458,31 +463,61 @@ def build_node(spec, h, funcs=None):
             common["cache"] = True
         if spec.get("ctor_rename_in"):
             common["rename_inputs"] = dict(spec["ctor_rename_in"])
+        if deco:
+            import hypergraph as _hg
+
+            # decorators are called with exactly the keywords a user would write (unset options are omitted)
+            if spec.get("emit") and len(spec["emit"]) == 1:
+                common["emit"] = spec["emit"][0]
+            if spec.get("wait_for") and len(spec["wait_for"]) == 1:
+                common["wait_for"] = spec["wait_for"][0]
         if kind == "fn":
             outs = spec.get("outs", [])
             on = None if not outs else (outs[0] if len(outs) == 1 else tuple(outs))
             with warnings.catch_warnings():
                 warnings.simplefilter("ignore")
-                n = FunctionNode(fn, name=name, output_name=on, **common)
+                if deco:
+                    n = _hg.node(output_name=on, **common)(fn) if (on is not None or common) else _hg.node(fn)
+                else:
+                    n = FunctionNode(fn, name=name, output_name=on, **common)
         elif kind == "interrupt":
             outs = spec["outs"]
             on = outs[0] if len(outs) == 1 else tuple(outs)
             with warnings.catch_warnings():
                 warnings.simplefilter("ignore")
-                n = InterruptNode(fn, name=name, output_name=on, **common)
+                if deco:
+                    n = _hg.interrupt(output_name=on, **common)(fn)
+                else:
+                    n = InterruptNode(fn, name=name, output_name=on, **common)
         elif kind == "ifelse":
             wt = END if spec["when_true"] == "END" else spec["when_true"]
             wf = END if spec["when_false"] == "END" else spec["when_false"]
-            n = IfElseNode(fn, wt, wf, name=name, default_open=spec.get("default_open", True), **common)
+            if deco:
+                if "default_open" in spec:
+                    common["default_open"] = spec["default_open"]
+                n = _hg.ifelse(when_true=wt, when_false=wf, **common)(fn)
+            else:
+                n = IfElseNode(fn, wt, wf, name=name, default_open=spec.get("default_open", True), **common)
         elif kind == "route":
             tg = [END if t == "END" else t for t in spec["targets"]]
             if spec.get("targets_dict"):
                 tg = {t: f"go to {t}" for t in tg}  # the documented dict form (target -> description)
             fb = spec.get("fallback")
             fb = END if fb == "END" else fb
-            n = RouteNode(fn, tg, fallback=fb, multi_target=bool(spec.get("multi")), name=name, default_open=spec.get("default_open", True), **common)
+            if deco:
+                if "default_open" in spec:
+                    common["default_open"] = spec["default_open"]
+                if fb is not None:
+                    common["fallback"] = fb
+                if spec.get("multi"):
+                    common["multi_target"] = True
+                n = _hg.route(targets=tg, **common)(fn)
+            else:
+                n = RouteNode(fn, tg, fallback=fb, multi_target=bool(spec.get("multi")), name=name, default_open=spec.get("default_open", True), **common)
         else:
             raise HarnessError(f"unknown node kind {kind}")
+        if deco and n.name != name:
+            raise HarnessError(f"decorator-built node is called {n.name!r}, expected {name!r}")
     if spec.get("rename_in_chain"):
         for m in spec["rename_in_chain"]:
             touch(n)  # the node is USED between renames (fills any cached lookup tables)
